@@ -29,6 +29,8 @@ pub struct UdpScn {
     pub oneway: Option<OneWay>,
     /// SOCKS5 only: a datagram that is not a well-formed RFC 1928 UDP request is sent to the relay address of client 0
     pub junk: Option<Junk>,
+    /// long flow: the exchanges of `sizes` are repeated this many times on the same sockets (1 = once)
+    pub rounds: usize,
     pub seed: u64,
 }
 
@@ -184,12 +186,13 @@ impl UdpScn {
                 o.at_ms.map(|a| format!(" at={a}")).unwrap_or_default()
             ),
         };
+        let rounds = if self.rounds > 1 { format!(" rounds={}", self.rounds) } else { String::new() };
         let junk = match &self.junk {
             None => String::new(),
             Some(j) => format!(" junk={} by={} when={}", j.kind.text(), if j.other { "other" } else { "own" }, if j.before { "before" } else { "after" }),
         };
         format!(
-            "udp via={} clients={} targets={} sizes={} replies={} domain={} idle={}{oneway}{junk} seed={}",
+            "udp via={} clients={} targets={} sizes={} replies={} domain={} idle={}{rounds}{oneway}{junk} seed={}",
             if self.socks { "socks5" } else { "udp-remote" },
             self.clients,
             self.targets.iter().map(ToString::to_string).collect::<Vec<_>>().join(","),
@@ -205,7 +208,7 @@ impl UdpScn {
         if t.next()? != "udp" {
             return None;
         }
-        let mut s = UdpScn { socks: false, clients: 1, targets: vec![0], sizes: vec![8], replies: 1, domain: false, idle_ms: 0, oneway: None, junk: None, seed: 0 };
+        let mut s = UdpScn { socks: false, clients: 1, targets: vec![0], sizes: vec![8], replies: 1, domain: false, idle_ms: 0, oneway: None, junk: None, rounds: 1, seed: 0 };
         for kv in t {
             let (k, v) = kv.split_once('=')?;
             match k {
@@ -213,7 +216,8 @@ impl UdpScn {
                 "clients" => s.clients = v.parse().ok().filter(|n| (1..=8).contains(n))?,
                 "targets" => s.targets = v.split(',').map(|x| x.parse().ok().filter(|n| *n < crate::world::UDP_TARGETS)).collect::<Option<Vec<_>>>()?,
                 "sizes" => s.sizes = parse_list(v, 60000)?,
-                "replies" => s.replies = v.parse().ok().filter(|n| (1..=2).contains(n))?,
+                "replies" => s.replies = v.parse().ok().filter(|n| (1..=3).contains(n))?,
+                "rounds" => s.rounds = v.parse().ok().filter(|n| (1..=5000).contains(n))?,
                 "domain" => s.domain = v == "1",
                 "idle" => s.idle_ms = v.parse().ok()?,
                 "oneway" => s.oneway.get_or_insert_with(|| OneWay::new(0)).ms = v.parse().ok().filter(|n| *n <= 120_000)?,
@@ -396,7 +400,7 @@ fn mk_payload(nonce: u32, client: usize, target: usize, seq: u32, len: usize, rn
 /// RFC 1928 header (SOCKS5), a reply some target sent, unmodified, at the client that originated the
 /// exchange, from the address that client sent to, once.  Returns the (client, target, reply index) that
 /// did not arrive.
-async fn collect(w: &World, sc: &UdpScn, clients: &[Client], sent: &[Sent], out: &mut UdpOutcome) -> Vec<(usize, usize, usize)> {
+async fn collect(w: &World, sc: &UdpScn, clients: &[Client], sent: &[Sent], tail: Duration, out: &mut UdpOutcome) -> Vec<(usize, usize, usize)> {
     // collect: every client socket listens until all expected replies are in or the wait is over
     let mut expected: HashMap<(usize, usize, usize), bool> = HashMap::new(); // (client, target, reply index) -> seen
     for s in sent {
@@ -415,7 +419,7 @@ async fn collect(w: &World, sc: &UdpScn, clients: &[Client], sent: &[Sent], out:
         }
         // after everything arrived keep listening shortly for datagrams that should not come
         let until = match all_since {
-            Some(t) => t + Duration::from_millis(40),
+            Some(t) => t + tail,
             None => deadline,
         };
         let mut got_any = false;
@@ -448,6 +452,39 @@ async fn collect(w: &World, sc: &UdpScn, clients: &[Client], sent: &[Sent], out:
                 } else {
                     data
                 };
+                // a proper prefix of a reply that a target sent in this round (reply i of target t to s = tag, i, payload
+                // of s): the exchanges of this client first
+                let truncated = sent.iter().filter(|s| s.client == ci).chain(sent.iter().filter(|s| s.client != ci)).find_map(|s| {
+                    (0..sc.replies)
+                        .find(|i| {
+                            let tag = w.udp_targets[s.target].tag;
+                            body.len() < s.payload.len() + 2
+                                && body.first().is_none_or(|b| *b == tag)
+                                && body.get(1).is_none_or(|b| *b as usize == *i)
+                                && (body.len() <= 2 || s.payload.starts_with(&body[2..]))
+                        })
+                        .map(|i| (s, i))
+                });
+                let exact = body.len() >= 2 && w.udp_targets.iter().position(|t| t.tag == body[0]).is_some_and(|t| sent.iter().any(|s| s.target == t && s.payload == body[2..]));
+                if let (false, Some((s, i))) = (exact, truncated) {
+                    out.bad.push((
+                        "reply-truncated".into(),
+                        format!(
+                            "reply {i} of target {} to [{}] arrived at client {ci} cut short: {} of the {} bytes the target sent (a prefix of them){}",
+                            s.target,
+                            desc(s),
+                            body.len(),
+                            s.payload.len() + 2,
+                            if sc.socks { ", behind a well-formed RFC 1928 header" } else { "" }
+                        ),
+                    ));
+                    if s.client == ci {
+                        if let Some(seen) = expected.get_mut(&(ci, s.target, i)) {
+                            *seen = true; // it did arrive: not reported as lost as well
+                        }
+                    }
+                    continue;
+                }
                 if body.len() < 2 {
                     out.bad.push(("reply-corrupt".into(), format!("client {ci} received a {}-byte datagram that no target sent", body.len())));
                     continue;
@@ -495,7 +532,13 @@ async fn collect(w: &World, sc: &UdpScn, clients: &[Client], sent: &[Sent], out:
 /// One round: every (client, target) pair sends one datagram of `len` bytes at the same time (pairs
 /// one at a time when the payload is too short to identify itself), then all replies are collected.
 #[allow(clippy::too_many_arguments)]
-async fn round(
+async fn round(w: &World, sc: &UdpScn, clients: &[Client], len: usize, seq: u32, nonce: u32, rng: &mut pvhf::Rng, out: &mut UdpOutcome) {
+    round_tail(w, sc, clients, len, seq, nonce, rng, Duration::from_millis(40), out).await;
+}
+
+/// `tail`: how long the clients keep listening, after everything expected has arrived, for datagrams that should not come.
+#[allow(clippy::too_many_arguments)]
+async fn round_tail(
     w: &World,
     sc: &UdpScn,
     clients: &[Client],
@@ -503,6 +546,7 @@ async fn round(
     seq: u32,
     nonce: u32,
     rng: &mut pvhf::Rng,
+    tail: Duration,
     out: &mut UdpOutcome,
 ) {
     let pairs: Vec<(usize, usize)> = (0..clients.len()).flat_map(|c| sc.targets.iter().map(move |t| (c, *t))).collect();
@@ -527,7 +571,7 @@ async fn round(
             sent.push(Sent { client: *c, target: *t, payload, to });
         }
         out.exchanges += sent.len();
-        let missing = collect(w, sc, clients, &sent, out).await;
+        let missing = collect(w, sc, clients, &sent, tail, out).await;
         let desc = |s: &Sent| format!("client {} ({}) -> target {} ({}) payload {} bytes", s.client, clients[s.client].addr, s.target, w.udp_targets[s.target].addr, s.payload.len());
         // what the targets saw
         for s in &sent {
@@ -683,7 +727,7 @@ async fn one_way(w: &World, sc: &UdpScn, ow: &OneWay, clients: &[Client], seq: &
         }
     }
     let before = out.bad.len();
-    let missing = collect(w, sc, clients, &last, out).await;
+    let missing = collect(w, sc, clients, &last, Duration::from_millis(40), out).await;
     for (c, t, i) in &missing {
         out.bad.push((
             "reply-not-delivered".into(),
@@ -839,14 +883,37 @@ pub async fn run_udp(w: Arc<World>, sc: UdpScn) -> UdpOutcome {
             return out;
         }
     }
-    for len in &sc.sizes {
-        seq += 1;
-        round(&w, &sc, &clients, *len, seq, nonce, &mut rng, &mut out).await;
-        if !out.bad.is_empty() || out.infra.is_some() {
-            if let (Some(j), Some(what)) = (&sc.junk, &junk_sent) {
-                after_junk(j, what, &clients, &mut out);
+    // long flow: the same exchanges again and again on the same sockets (no pause: one flow per client socket on the
+    // server all along); only the last one listens on for stray datagrams, a stray one is seen by the next exchange
+    let rounds = sc.rounds.max(1);
+    let mut reply_bytes = 0usize; // per client and target, so far
+    for r in 0..rounds {
+        for (k, len) in sc.sizes.iter().enumerate() {
+            seq += 1;
+            let last = r + 1 == rounds && k + 1 == sc.sizes.len();
+            let tail = Duration::from_millis(if rounds > 1 && !last { 0 } else { 40 });
+            round_tail(&w, &sc, &clients, *len, seq, nonce, &mut rng, tail, &mut out).await;
+            if !out.bad.is_empty() || out.infra.is_some() {
+                if rounds > 1 {
+                    for b in &mut out.bad {
+                        b.0 = format!("long-flow:{}", b.0);
+                        b.1 = format!(
+                            "exchange {} of {} on the same sockets ({} bytes of replies had come back per client and target before; {} target(s), {} replies each): {}",
+                            r * sc.sizes.len() + k + 1,
+                            rounds * sc.sizes.len(),
+                            reply_bytes,
+                            sc.targets.len(),
+                            sc.replies,
+                            b.1
+                        );
+                    }
+                }
+                if let (Some(j), Some(what)) = (&sc.junk, &junk_sent) {
+                    after_junk(j, what, &clients, &mut out);
+                }
+                return out;
             }
-            return out;
+            reply_bytes += (*len + 2) * sc.replies;
         }
     }
     if let Some(j) = sc.junk.as_ref().filter(|j| !j.before) {
